@@ -472,13 +472,6 @@ class Module(CanContainImportsDocumentable):
     kind = DocumentableKind.MODULE
     state = ProcessingState.UNPROCESSED
 
-    @property
-    def privacyClass(self) -> PrivacyClass:
-        if self.name == '__main__':
-            return PrivacyClass.PRIVATE
-        else:
-            return super().privacyClass
-
     def setup(self) -> None:
         super().setup()
 
@@ -1167,6 +1160,9 @@ class System:
         privacy = PrivacyClass.PUBLIC
         if ob.name.startswith('_') and \
                not (ob.name.startswith('__') and ob.name.endswith('__')):
+            privacy = PrivacyClass.PRIVATE
+        elif isinstance(ob, Module) and ob.name == '__main__':
+            # Scripts are private by default; like any default, a --privacy rule overrides it.
             privacy = PrivacyClass.PRIVATE
         
         # Precedence order: CLI arguments order
